@@ -40,7 +40,8 @@ class Sched:
         self.policy = policy         # callable(sched, runnable) -> worker or None (default random)
         self.kill_plan = {}          # worker -> kill at its n-th gate
         self.gates = {}              # worker -> number of gates passed
-        self.max_steps = 200000
+        self.max_steps = 40000       # legitimate runs need a few hundred to a few thousand steps
+        self.runaway = False
         self.stall = {}              # worker -> predicate(sched) -> bool: do not schedule while true
         self.pending_lock = {}       # worker -> task whose lock.get() is in progress (fs-level gating)
         self.pending_dump = {}       # worker -> dump event whose write is in progress
@@ -77,8 +78,10 @@ class Sched:
 
     # scheduler loop (main thread)
     def run(self):
+        import time as _time
         while True:
             with self.cv:
+                t_wait = _time.time()
                 while True:
                     alive = self.n - len(self.done)
                     if alive == 0:
@@ -86,6 +89,17 @@ class Sched:
                     if self.turn is None and len(self.waiting) == alive:
                         break
                     self.cv.wait(0.005)
+                    if _time.time() - t_wait > 30:
+                        # a worker has been running for 30 s without reaching a gate (store / lock access, function entry, sleep): the task
+                        # functions of the harness return at once, so it is spinning in a loop of its own. It cannot be stopped from here
+                        # (it never reaches a gate); the run is abandoned and reported.
+                        self.runaway = True
+                        self.spinning_free = [w_ for w_ in range(self.n) if w_ not in self.done and w_ not in self.waiting]
+                        for w_ in range(self.n):
+                            if w_ not in self.done:
+                                self.killed.add(w_)
+                        self.cv.notify_all()
+                        return
                 runnable = sorted(w for w in self.waiting if not (w in self.stall and self.stall[w](self)))
                 if not runnable:
                     runnable = sorted(self.waiting)      # everybody stalled: release the stall
@@ -97,7 +111,13 @@ class Sched:
                     w = self.rng.choice(runnable)
                 self.steps += 1
                 if self.steps > self.max_steps:
-                    raise RuntimeError('scheduler: too many steps')
+                    # the workers do not come to an end: stop them (every gate raises Killed from now on) and report it
+                    self.runaway = True
+                    for w_ in range(self.n):
+                        if w_ not in self.done:
+                            self.killed.add(w_)
+                    self.cv.notify_all()
+                    return
                 self.turn = w
                 self.cv.notify_all()
 
@@ -344,7 +364,7 @@ def run_workers(path, make_worker_store, nworkers, rng, flags=None, policy=None,
             sched.record(('exit', w, code))
             results[w] = ('ret', bool(r))
         except Killed:
-            results[w] = ('killed',)
+            results[w] = ('runaway',) if sched.runaway else ('killed',)
         except SystemExit as e:
             try:
                 sched.gate(w, ('exit', -1))
@@ -375,7 +395,9 @@ def run_workers(path, make_worker_store, nworkers, rng, flags=None, policy=None,
         sched.run()
     finally:
         for t in threads:
-            t.join(timeout=20)
+            t.join(timeout=20 if not sched.runaway else 1)
+        for w_ in getattr(sched, 'spinning_free', []):
+            results.setdefault(w_, ('runaway',))
         if undo_fs:
             undo_fs()
         jug.hooks.reset_all_hooks()
